@@ -40,7 +40,8 @@ META = dict(
     functions=['restricted_evaluator / _eval', 'RestrictedNodeVisitor.visit',
                'CompletionEvaluator', '_get_exception'],
     bounds=['33 leaf forms; operands: leaf | (leaf and name) | (leaf or '
-            'name); root: and / or / | / single operand'],
+            'name) | thorough: (name and (leaf | (name or name))); root: and '
+            '/ or / | / single operand'],
     stubs=['none'],
     assumptions=[],
     outside=['Jinja2 / parsec evaluation elsewhere in the config layer',
@@ -134,7 +135,10 @@ def operand(kind):
         return LEAVES[kind]
     if kind < 2 * n:
         return f'({LEAVES[kind - n]} and b)'
-    return f'(a or {LEAVES[kind - 2 * n]})'
+    if kind < 3 * n:
+        return f'(a or {LEAVES[kind - 2 * n]})'
+    # (thorough tier) one level deeper
+    return f'(a and ({LEAVES[kind - 3 * n]} | (b or a)))'
 
 
 def build(root, k1, k2):
@@ -230,14 +234,14 @@ def trees(root: int, k1: int, k2: int) -> bool:
     """
     pre: sl(root=root)
     pre: SLICE['lo'] <= k1 < SLICE['lo'] + 11
-    pre: 0 <= root < len(ROOTS) and 0 <= k1 < 3 * len(LEAVES)
-    pre: 0 <= k2 < 3 * len(LEAVES)
+    pre: 0 <= root < len(ROOTS) and 0 <= k1 < SLICE.get('bands', 3) * len(LEAVES)
+    pre: 0 <= k2 < SLICE.get('bands', 3) * len(LEAVES)
     pre: root != 3 or k2 == 0
     post: _
     """
     root = fork_int(root, 0, 3)
-    k1 = fork_int(k1, 0, 3 * len(LEAVES) - 1)
-    k2 = fork_int(k2, 0, 3 * len(LEAVES) - 1)
+    k1 = fork_int(k1, 0, 4 * len(LEAVES) - 1)
+    k2 = fork_int(k2, 0, 4 * len(LEAVES) - 1)
     with concrete():
         return _check(root, k1, k2)
 
@@ -247,10 +251,11 @@ def OBLIGATIONS(tier):
     t = 1200 if big else 160
     obs = [Ob('no_builtins', 'no_builtins', timeout=t)]
     for r in range(len(ROOTS)):
-        for lo in range(0, 3 * len(LEAVES), 11):
+        bands = 4 if big else 3
+        for lo in range(0, bands * len(LEAVES), 11):
             obs.append(Ob(f'trees[root={ROOTS[r]},k1={lo}..]', 'trees',
                           timeout=t, twin=(lo == 0),
-                          slice={'root': r, 'lo': lo}))
+                          slice={'root': r, 'lo': lo, 'bands': bands}))
     return obs
 
 
